@@ -1,10 +1,13 @@
 package main
 
 import (
+	"encoding/json"
 	"fmt"
 	"os"
 	"time"
 
+	"verif/h/codecx"
+	"verif/h/dmgx"
 	"verif/h/eng"
 	"verif/h/seqx"
 )
@@ -12,6 +15,7 @@ import (
 type seqCheck struct {
 	families []string
 	thorough []string
+	pre      func(r *eng.Run, tier string) // extra engine run before the search (same evidence file)
 	rule     string
 	assume   []string
 }
@@ -25,7 +29,7 @@ var seqChecks = map[string]seqCheck{
 	"C10": {families: []string{"times", "core", "cfg", "roll", "inputs", "helpers"}},
 	"C11": {families: []string{"ixfiles"}, thorough: []string{"ixfiles", "ixfiles-all"}},
 	"C12": {families: []string{"del"}},
-	"C13": {families: []string{"core", "cfg", "roll"}},
+	"C13": {families: []string{"core", "cfg", "roll", "inputs"}, pre: runCodecx},
 	"C15": {families: []string{"trim"}},
 	"C16": {families: []string{"kv"}},
 	"C17": {families: []string{"versions"}},
@@ -52,6 +56,9 @@ func runCheck(prop, tier string) int {
 	if c, ok := seqChecks[prop]; ok {
 		return runSeq(prop, tier, c)
 	}
+	if prop == "C07" || prop == "C14" {
+		return runDmg(prop, tier)
+	}
 	fmt.Fprintln(os.Stderr, "no check for", prop)
 	return 2
 }
@@ -63,6 +70,9 @@ func runSeq(prop, tier string, c seqCheck) int {
 	defer pool.Close()
 	st := &seqx.Stats{FPs: map[uint64]struct{}{}}
 	budget := tierBudget(tier)
+	if c.pre != nil {
+		c.pre(r, tier)
+	}
 	if tier == "thorough" && c.thorough != nil {
 		c.families = c.thorough
 	}
@@ -90,11 +100,42 @@ func runSeq(prop, tier string, c seqCheck) int {
 	return r.Finish()
 }
 
+func runCodecx(r *eng.Run, tier string) {
+	root, err := os.MkdirTemp(scratch(), "verif.codecx.")
+	if err != nil {
+		r.HarnessError(err.Error())
+		return
+	}
+	defer os.RemoveAll(root)
+	st := codecx.Run(root, tier, func(p codecx.Problem) {
+		if p.Sig == "harness" {
+			r.HarnessError(p.Msg)
+			return
+		}
+		r.Report(eng.Violation{Sig: "codec: " + p.Sig, Msg: p.Msg, Replay: map[string]any{"engine": "codecx", "case": p.Rep, "expected_vs_observed": p.Msg}})
+	})
+	r.Cov["codec_cases"] = st.Cases
+	r.Cov["codec_files"] = st.Files
+	r.Cov["codec_distinct_messages"] = st.Distinct
+	r.Cov["codec_rule"] = "every key length x value length of the tier x 6 boundary times x 4 base offsets x V1/V2, written with message.Writer / index.Writer (4 layouts), compared byte for byte with the independent reference encoder, then the reference bytes read back through the file reader and the mmap reader"
+	r.Samples = append(r.Samples, map[string]any{"engine": "codecx", "version": 2, "klen": 3, "vlens": "0..64,255,256,257,300", "time_us": codecx.Times[0], "base_offset": codecx.Bases[2]})
+}
+
+func scratch() string {
+	if s := os.Getenv("VERIF_SCRATCH"); s != "" {
+		return s
+	}
+	return "/dev/shm"
+}
+
 func runWorker(engine string) {
 	switch engine {
 	case "seqx":
 		eng.ServeWorker(seqx.Worker)
 		seqx.CleanupWorker()
+	case "dmgx":
+		eng.ServeWorker(dmgx.Worker)
+		dmgx.CleanupWorker()
 	default:
 		fmt.Fprintln(os.Stderr, "unknown engine", engine)
 		os.Exit(2)
@@ -104,4 +145,106 @@ func runWorker(engine string) {
 func runReplay(path string) int {
 	fmt.Fprintln(os.Stderr, "replay not built yet:", path)
 	return 2
+}
+
+func runDmg(prop, tier string) int {
+	r := eng.NewRun(prop, tier, "fault_enumeration", "dmgx")
+	pool := eng.NewPool("dmgx")
+	pool.Start()
+	defer pool.Close()
+	root, err := os.MkdirTemp(scratch(), "verif.dmgx.")
+	if err != nil {
+		r.HarnessError(err.Error())
+		return r.Finish()
+	}
+	defer os.RemoveAll(root)
+	var tasks []dmgx.Task
+	const chunk = 150
+	spaces := 0
+	if prop == "C07" {
+		for si := range dmgx.Shapes07 {
+			for li := range dmgx.Layouts {
+				for _, ver := range []int{2, 1} {
+					t := dmgx.Task{Prop: prop, Shape: si, Layout: li, Ver: ver, Tier: tier}
+					_, _, _, ds, err := dmgx.Base07(root+"/b", t)
+					if err != nil {
+						r.HarnessError(err.Error())
+						continue
+					}
+					spaces++
+					for lo := 0; lo < len(ds); lo += chunk {
+						t.Lo, t.Hi = lo, lo+chunk
+						tasks = append(tasks, t)
+					}
+				}
+			}
+		}
+	} else {
+		shapes := []int{0}
+		if tier == "thorough" {
+			shapes = []int{0, 1}
+		}
+		for _, si := range shapes {
+			_, _, files, err := dmgx.Base14(root+"/b", dmgx.Shapes14[si])
+			if err != nil {
+				r.HarnessError(err.Error())
+				continue
+			}
+			spaces++
+			n := len(dmgx.Damages14(files))
+			for lo := 0; lo < n; lo += chunk {
+				tasks = append(tasks, dmgx.Task{Prop: prop, Shape: si, Lo: lo, Hi: lo + chunk, Tier: tier})
+			}
+		}
+	}
+	if r.Seed != 0 && len(tasks) > 1 {
+		k := r.Seed % len(tasks)
+		if k < 0 {
+			k = -k
+		}
+		tasks = append(tasks[k:], tasks[:k]...)
+	}
+	cases := 0
+	outcomes := map[string]int{}
+	eng.Map(pool, tasks, func(i int, raw json.RawMessage, err error) {
+		if err != nil {
+			if err == eng.ErrHung {
+				r.Report(eng.Violation{Sig: "hang", Msg: fmt.Sprintf("a call did not return within the guard in damage shard %+v", tasks[i]), Replay: map[string]any{"task": tasks[i]}})
+			} else {
+				r.HarnessError(fmt.Sprintf("dmgx shard %+v: %v", tasks[i], err))
+			}
+			return
+		}
+		var res dmgx.Result
+		if err := json.Unmarshal(raw, &res); err != nil {
+			r.HarnessError(err.Error())
+			return
+		}
+		if res.HarnessErr != "" {
+			r.HarnessError(fmt.Sprintf("dmgx shard %+v: %s", tasks[i], res.HarnessErr))
+			return
+		}
+		cases += res.Cases
+		for k, v := range res.Outcomes {
+			outcomes[k] += v
+		}
+		if len(r.Samples) < 8 && res.Sample != "" {
+			r.Samples = append(r.Samples, map[string]any{"shard": tasks[i], "first_damage": res.Sample})
+		}
+		for _, p := range res.Problems {
+			r.Report(eng.Violation{Sig: p.Sig, Msg: p.Msg + " -- damage: " + p.Damage,
+				Replay: map[string]any{"engine": "dmgx", "task": tasks[i], "damage": p.Damage, "expected_vs_observed": p.Msg}})
+		}
+	})
+	r.Cov["evaluations"] = cases
+	r.Cov["distinct_nontrivial"] = len(outcomes)
+	r.Cov["damage_spaces"] = spaces
+	r.Cov["outcome_classes"] = outcomes
+	if prop == "C07" {
+		r.Cov["rule"] = "for every base head segment (4 record shapes x 4 index layouts x V2, V1 for truncation and index damage) the complete damage space is enumerated: truncation to every length, every byte after the header altered three ways, zero/0xFF/pseudo-random tails of every length up to two records, index missing/truncated at every length/every byte inverted/extra items/other layout; each case through klevdb.Recover and through Open(Recover)+Close; distinct_nontrivial counts distinct outcome classes (valid records kept, clean or not, Check verdict, files left)"
+	} else {
+		r.Cov["rule"] = "three-segment V2 logs with both indexes; damage applied to one .log file at a time: every single-bit flip, every start x length 1..8 overwrite with zeros/0xFF/pseudo-random/copy of preceding bytes, truncation to every length, every zero-filled suffix; after each a fresh Open and the full read sweep (Consume at all offsets x 3 counts, Get, GetByKey, ConsumeByKey, GetByTime); distinct_nontrivial counts distinct (open result, #calls failed, #calls succeeded) classes"
+	}
+	r.Assumptions = []string{"index files intact for C14 (the property's own fault model)", "trusted: the independent reference parser (cross-checked against klevdb by C13)", "allocation clause: bytes allocated per call measured with runtime/metrics in a single-threaded worker, threshold 4 x file size + 1 MiB"}
+	return r.Finish()
 }
